@@ -448,7 +448,7 @@ Fixpoint find_and_check (has:lframe -> bool) (hd:lframe -> bool) (fs:list lframe
          end
   end.
 
-Definition agoto (id l:nat) (fs:list lframe) : errs :=
+Definition agoto_mix (id l:nat) (fs:list lframe) : errs :=
   match find_and_check (fun f => has_label l (seen f)) hd_sofar fs with
   | Some true => []
   | Some false => [(id, KGotoDefer)]
@@ -459,6 +459,25 @@ Definition agoto (id l:nat) (fs:list lframe) : errs :=
     | None => [(id, KGotoNoLabel)]
     end
   end.
+
+(* the is_deferblock test of the same walk (330205b): a scope strictly inside the label's scope is a defer block *)
+Fixpoint walk_meets_deferblock (has:lframe -> bool) (fs:list lframe) : option bool :=
+  match fs with
+  | [] => None
+  | f :: r =>
+    if has f then Some false
+    else match walk_meets_deferblock has r with Some b => Some (b || isdefer f) | None => None end
+  end.
+
+Definition goto_out_of_deferblock (l:nat) (fs:list lframe) : bool :=
+  match walk_meets_deferblock (fun f => has_label l (seen f)) fs with
+  | Some b => b
+  | None => match walk_meets_deferblock (lbl_final l) fs with Some b => b | None => false end
+  end.
+
+Definition agoto (id l:nat) (fs:list lframe) : errs :=
+  agoto_mix id l fs ++
+  (if gen_goto_checks_defer_block && goto_out_of_deferblock l fs then [(id, KGotoDefer)] else []).
 
 Definition alabel (id l:nat) (fs:list lframe) : errs :=
   if existsb (fun f => has_label l (seen f)) fs then [(id, KLabelDup)] else [].
@@ -660,12 +679,14 @@ with asw_cases (cs:cases) {struct cs} : errs :=
 Definition rule_flow (p:block) : bool := rflow_block false false p.
 Definition rule_names (p:block) : bool := rname_block [] [] p.
 Definition rule_labels (p:block) : bool := rlab_block [] [] false p.
+Definition rule_consts (p:block) : bool := rconst_block p.
+Definition rule_switch (p:block) : bool := rsw_block p.
 Definition rule_labels_unique (p:block) : bool := nodupn (flabels_block p) && runiq_block p.
 Definition rule_goto_stays_in_defer (p:block) : bool := rgd_block [] [] false p.
 Definition rule_labels_full (p:block) : bool := rule_labels p && rule_labels_unique p && rule_goto_stays_in_defer p.
-Definition rule_consts (p:block) : bool := rconst_block p.
-Definition rule_switch (p:block) : bool := rsw_block p.
-Definition rule_ok (p:block) : bool := rule_flow p && rule_names p && rule_labels p && rule_consts p && rule_switch p.
+
+Definition rule_ok (p:block) : bool :=
+  rule_flow p && rule_names p && rule_labels p && rule_goto_stays_in_defer p && rule_consts p && rule_switch p.
 
 Definition off_flow (p:block) : errs := aflow_block [plain_scope; func_scope] false p.
 Definition off_names (p:block) : errs := aname_block [mkn false []; mkn true []] p.
